@@ -455,6 +455,14 @@ def run(rep: Report) -> None:
     explicit = all(d in qc.methods for d in ("__lt__", "__le__", "__gt__", "__ge__"))
     rep.check("R12.4", "Quantity:ordering", ("total_ordering" in qc.decorators and "__lt__" in qc.methods and "__eq__" in qc.methods) or explicit,
               "Quantity defines neither functools.total_ordering over __eq__/__lt__ nor all four ordering methods", f"{qc.path}:{qc.node.lineno}")
+    # with total_ordering the other four comparisons are *derived* from __eq__ and __lt__ (a > b is `not a < b and a != b`):
+    # an explicit __ne__/__gt__/__le__/__ge__ next to them replaces a derived one by something R12.6/R06.2 have not looked at
+    if "total_ordering" in qc.decorators:
+        extra_cmp = [d for d in ("__ne__", "__gt__", "__le__", "__ge__") if d in qc.methods or d in qc.aliases]
+        rep.check("R12.4", "Quantity:derived-comparisons", not extra_cmp,
+                  f"Quantity is @total_ordering and also defines {extra_cmp}: the hand-written method takes the place of the one derived from __eq__/__lt__ "
+                  "(and `>` is derived through `!=`), so <, >, == and != no longer come from one comparison - trichotomy and mirror symmetry are no longer "
+                  "consequences of R06.2", f"{qc.path}:{qc.node.lineno}")
     for d in ("__eq__", "__lt__"):
         fi = prog.func(f"Quantity.{d}")
         # shared with C03 R03.3: the gate may be inline or in a helper whose None result becomes NotImplemented
@@ -480,7 +488,8 @@ def run(rep: Report) -> None:
             cmps = [n for n in ast.walk(fi.node) if isinstance(n, ast.Compare)
                     and any(isinstance(o, (ast.Lt, ast.LtE, ast.Gt, ast.GtE)) for o in n.ops)]
             if not cmps:
-                raise AnalysisError(f"{cls}.{d}: no ordering comparison found")
+                rep.defer(AnalysisError(f"{cls}.{d}: no ordering comparison found"))
+                continue
             wrong = [n for n in cmps if any(isinstance(o, (ast.Lt, ast.LtE, ast.Gt, ast.GtE)) and not isinstance(o, op) for o in n.ops)]
             rep.check("R12.6", f"{cls}.{d}", not wrong,
                       f"{cls}.{d} contains `{ast.unparse(wrong[0]) if wrong else ''}`: an ordering method must compare with its own "
